@@ -88,7 +88,7 @@ FAMILIES = {
              'non-trivial: a dispatch is rejected'),
     'C15': dict(
         gens=[('core', dict(p_waitidle=0.35, tasklen=(2, 8), ntasks=(1, 3)), 0.35), ('core', dict(p_waitidle=0.3, p_timeout=0.4), 0.15),
-              ('chain', dict(p_timeout=0.3), 0.15), ('idle', dict(), 0.35)],
+              ('chain', dict(p_timeout=0.3), 0.15), ('idle', dict(), 0.25), ('backlog', dict(p_waitidle=1.0), 0.1)],
         facets=['idle', 'unfinished', 'queue', 'rest', 'history', 'results', 'activation', 'harness', 'other', 'runloop', 'recursion', 'timeout'],
         rule='wait_until_idle racing external and nested dispatches at offsets around the 0.1 s poll, after errors, timeouts, rejections, evictions; '
              'non-trivial: a wait_until_idle call overlaps at least one activation'),
@@ -116,7 +116,7 @@ FAMILIES = {
 BUDGET = {'quick': 960, 'thorough': 16000}
 
 
-def gen_backlog(rng, **_):
+def gen_backlog(rng, p_waitidle=0.0, **_):
     """a handler (or main code) dispatching bursts around the queue / capacity limits"""
     nb = rng.randint(1, 2)
     maxh = rng.choice([50, 200, None, 120, 1, 5, 20, 49, 30])
@@ -137,6 +137,10 @@ def gen_backlog(rng, **_):
         sc['tasks'].append([['dispatch', tgt, 'D', i] for i in range(n)] + [['sleep', 1 / 64], ['dispatch', tgt, 'D', n]])
     if rng.random() < 0.5:
         sc['handlers'].append({'bus': tgt, 'key': 'D', 'kind': 'async', 'prog': [['sleep', rng.choice([0, 1 / 64])]]})
+    if p_waitidle and rng.random() < p_waitidle:
+        # wait_until_idle() after the burst (and its rejections) on every bus
+        for b in range(nb):
+            sc['tasks'][0].append(['waitidle', b])
     return sc
 
 
